@@ -30,12 +30,14 @@ PROP = dict(
               "directions + issorted + median, medfilt n in {3,8}, MedianFilter orders {5,16,33} (whole and 65537-sample blocks), Pearson and "
               "Spearman in corr.large; corr: all pairs of permutations n<=5 and "
               "identity x all 5040 permutations n=7 (both sides), Pearson with 9 letter pairs (linear/cubic/exponential), Spearman, Kendall; "
-              "every sort / median / MedianFilter / medfilt case above x 6 value maps {plain, r*1e-18, 1e-300*(r+1), 0.25+r*2^-54, "
-              "-(1+r*eps), r*1e300/8}; corr.large: n in {100,1000,1290,1291,1625,2000,2048,5000,20000,70000,200000} (Kendall in this grid up to 20000) x {increasing linear, decreasing "
+              "every sort / median / MedianFilter / medfilt case above x 11 value maps {plain, r*1e-18, 1e-300*(r+1), 0.25+r*2^-54, "
+              "-(1+r*eps), r*1e300/8, and the unit changes plain*2^k for k in {-1000,-540,-300,300,1000}}; corr.units: every pair of "
+              "permutations n<=5 (n=6,7: identity, reversal and every 90th / 720th x-permutation x all y) x the 10 non-plain maps applied to "
+              "x, to y and to both x Pearson/Spearman/Kendall; corr.large: n in {100,1000,1290,1291,1625,2000,2048,5000,20000,70000,200000} (Kendall in this grid up to 20000) x {increasing linear, decreasing "
               "linear, increasing cubic, decreasing exponential, 2 independent LCG permutation pairs} x Pearson/Spearman/Kendall; corr.kendall.big: Kendall at n = 65537 (both argument "
               "orders) and n = 70000 with x[i]=i, y[i]=(7919*i) mod n and with a strictly decreasing relation",
-        thorough="as quick with all weak orders n<=8 (545835 at n=8), all permutations n<=10 (3.6M at n=10), each x 6 value maps and both "
-                 "directions; MedianFilter orders + {16,33,64}, ternary streams k<=10, quaternary streams k<=8, long streams 10^4 samples for "
+        thorough="as quick with all weak orders n<=8 (545835 at n=8), all permutations n<=10 (3.6M at n=10), each x 11 value maps (n = 10, ternary k = 10 and quaternary k = 8: the 6 maps without the unit changes) and both "
+                 "directions; corr.units over every pair of permutations n<=7 (25.4M pairs at n=7 x 30 map placements x 3 coefficients); MedianFilter orders + {16,33,64}, ternary streams k<=10, quaternary streams k<=8, long streams 10^4 samples for "
                  "every order 3..64, medfilt sequences L<=8 for n 3..12, corr all pairs of permutations n<=6 (518k pairs per coefficient and letter pair) and all 25.4M pairs "
                  "of permutations of length 7 for Pearson (linear x exponential letters), Spearman and Kendall; length 8: identity, reversal and every 63rd permutation (641 x-permutations) x all "
                  "40320 y-permutations for the three coefficients; corr.large also n in {65537, 100000, 1000003} (Pearson, Spearman); corr.kendall.big also "
@@ -47,6 +49,11 @@ PROP = dict(
         "range check 'to rounding': |corr| <= 1 + max(4 eps, value tolerance) (Pearson's moment formula returns 1 + 8.4e-15 for two "
         "collinear points, observed and reported, not judged a violation); symmetry tolerance 1e-12 as in the design; tie-free data only for corr",
         "sort stability is not part of the statement and not checked",
+        "corr.units: Spearman and Kendall depend only on the two orders, so the mapped data must give the reference of the plain pair (sign "
+        "flipped per decreasing map) within 64*n*eps / 8 eps; identical bits are expected but not demanded. Pearson is judged only where the "
+        "squares of the data, the two variances n*Sxx-Sx^2 and their product stay within [1e-290,1e290] and the tolerance 16*n*eps*kappa is "
+        "below 1e-3: this excludes the units 2^+-540, 2^+-1000, 2^+-300 applied to both samples, 1e-300 and 1e300 scales and the "
+        "adjacent-double maps, where the moment formula over/underflows (results there are counted as finite / non-finite, not judged)",
         "corr.large: references are O(n) long-double moments (Pearson), the exact integer closed form on O(n log n) ranks (Spearman) and a "
         "64-bit merge-sort inversion count (Kendall, cross-checked against the O(n^2) definition for every n <= 2000; a mismatch aborts the "
         "harness); tolerance 16*n*eps*kappa for the moment formulas, 8 eps for Kendall. The library's Kendall loop is O(n^2), so the 6-relation "
